@@ -471,6 +471,12 @@ pub(crate) fn run(
                         if state.get(0) > slot1 {
                             state.save(0, slot1);
                         }
+                        // With keep out (\K) inside a look-behind, the match start can also end
+                        // up before the position the search started from. When iterating, such
+                        // a match would overlap the previous one. Cap the start to >= pos.
+                        if state.get(0) < pos {
+                            state.save(0, pos);
+                        }
                     }
                     return Ok(Some(state.saves));
                 }
